@@ -5,6 +5,7 @@ import (
 	"math"
 	"math/big"
 	mbits "math/bits"
+	"strings"
 	"testing"
 
 	"verif/internal/h"
@@ -51,6 +52,73 @@ func log2f(x *big.Float) float64 {
 // floorLog2 returns floor(log2 x) for x > 0.
 func floorLog2(x *big.Float) int { return x.MantExp(nil) - 1 }
 
+// pow2frac returns 2^x for x a multiple of 2^-16, from the integer part and successive square roots of 2.
+func pow2frac(x float64) *big.Float {
+	fl := math.Floor(x)
+	r := pow2(int(fl))
+	k := int(math.Round((x - fl) * 65536))
+	root := bfF(2)
+	for bit := 15; bit >= 0; bit-- {
+		root = bf().Sqrt(root) // 2^(1/2), 2^(1/4), ...
+		if k&(1<<bit) != 0 {
+			r.Mul(r, root)
+		}
+	}
+	return r
+}
+
+// snapAny renders a value slice exactly (used to check that a call leaves its input alone).
+func snapAny(v any) string {
+	var sb strings.Builder
+	bfs := func(x *big.Float) {
+		if x == nil {
+			sb.WriteString("nil;")
+		} else {
+			fmt.Fprintf(&sb, "%s/%d;", x.Text('p', 0), x.Prec())
+		}
+	}
+	switch v := v.(type) {
+	case []complex128:
+		for _, x := range v {
+			fmt.Fprintf(&sb, "%x,%x;", math.Float64bits(real(x)), math.Float64bits(imag(x)))
+		}
+	case []float64:
+		for _, x := range v {
+			fmt.Fprintf(&sb, "%x;", math.Float64bits(x))
+		}
+	case []*big.Float:
+		for _, x := range v {
+			bfs(x)
+		}
+	case []*bignum.Complex:
+		for _, x := range v {
+			if x == nil {
+				sb.WriteString("nil|")
+			} else {
+				bfs(x[0])
+				bfs(x[1])
+				sb.WriteString("|")
+			}
+		}
+	case []uint64:
+		fmt.Fprint(&sb, v)
+	case []int64:
+		fmt.Fprint(&sb, v)
+	}
+	return sb.String()
+}
+
+// snapPlaintext renders the coefficients and the metadata of a plaintext.
+func snapPlaintext(pt *rlwe.Plaintext) string {
+	h64 := uint64(1469598103934665603)
+	for _, limb := range pt.Value.Coeffs {
+		for _, x := range limb {
+			h64 = (h64 ^ x) * 1099511628211
+		}
+	}
+	return fmt.Sprintf("%x|%d|%s|%v|%v|%v|%v", h64, len(pt.Value.Coeffs), pt.Scale.Value.Text('p', 0), pt.IsNTT, pt.IsMontgomery, pt.IsBatched, pt.LogDimensions)
+}
+
 type cval struct{ re, im *big.Float }
 
 func zeroC() cval { return cval{bf(), bf()} }
@@ -81,8 +149,18 @@ type CKKSCase struct {
 	Drop      int        `json:"drop"`   // max |value| = 2^(maxExp-Drop), maxExp = floor(log2(0.45 Q_level/scale)); -1: |value| ~ 1
 	Pat       string     `json:"pat"`
 	Seed      uint64     `json:"seed"`
-	Dirty     bool       `json:"dirty"`   // encoder and plaintext used before for another vector
-	LogPrec   float64    `json:"logPrec"` // 0: no DecodePublic step; else compared with Decode
+	Dirty     bool       `json:"dirty"`            // encoder and plaintext used before for another vector
+	LogPrec   float64    `json:"logPrec"`          // 0: no DecodePublic step; else compared with Decode
+	NilAt     int        `json:"nilAt,omitempty"`  // big input types: entry (NilAt-1) mod len is nil (the encoders treat nil as zero); 0: none
+	LongIn    bool       `json:"longIn,omitempty"` // input one element longer than the slot count: Encode must return an error
+	// Then is a second, fully checked round trip on the SAME encoder and the SAME plaintext object (Params/Prec/Level of the first)
+	Then *CKKSCase `json:"then,omitempty"`
+}
+
+// ckksShared is what the second step of a case inherits from the first.
+type ckksShared struct {
+	ecd *ckks.Encoder
+	pt  *rlwe.Plaintext
 }
 
 func (c CKKSCase) RandSeed() uint64 { return c.Seed }
@@ -163,17 +241,22 @@ func genDrop(t *rapid.T, label string) int {
 	}
 }
 
-func genCKKS(t *rapid.T) CKKSCase {
+// genCKKSStep draws one round trip; with first != nil it draws a second one for the same parameters, precision and level.
+func genCKKSStep(t *rapid.T, first *CKKSCase) CKKSCase {
 	var c CKKSCase
 	maxLogN := 7
 	if h.Thorough() {
 		maxLogN = 9
 	}
-	c.Params = genCKKSSpec(t, maxLogN)
-	c.Prec = genPrec(t)
-	c.Level = rapid.IntRange(0, len(c.Params.Q)-1).Draw(t, "level")
-	if rapid.IntRange(0, 2).Draw(t, "maxLevel") == 0 {
-		c.Level = len(c.Params.Q) - 1
+	if first != nil {
+		c.Params, c.Prec, c.Level = first.Params, first.Prec, first.Level
+	} else {
+		c.Params = genCKKSSpec(t, maxLogN)
+		c.Prec = genPrec(t)
+		c.Level = rapid.IntRange(0, len(c.Params.Q)-1).Draw(t, "level")
+		if rapid.IntRange(0, 2).Draw(t, "maxLevel") == 0 {
+			c.Level = len(c.Params.Q) - 1
+		}
 	}
 	c.ScaleLog, c.ScaleMant = genScaleLog(t, sumBits(c.Params.Q[:c.Level+1]), "scale")
 	c.Batched = rapid.IntRange(0, 3).Draw(t, "batched") != 0
@@ -210,7 +293,27 @@ func genCKKS(t *rapid.T) CKKSCase {
 	c.Seed = rapid.Uint64().Draw(t, "seed")
 	c.Dirty = rapid.Bool().Draw(t, "dirty")
 	if rapid.IntRange(0, 1).Draw(t, "public") == 1 {
-		c.LogPrec = float64(rapid.IntRange(2, 120).Draw(t, "logprec2")) / 2
+		switch rapid.IntRange(0, 3).Draw(t, "logpreck") {
+		case 0:
+			c.LogPrec = float64(rapid.IntRange(1, 60).Draw(t, "logprecInt"))
+		case 1:
+			c.LogPrec = float64(rapid.IntRange(1, 120).Draw(t, "logprec2")) / 2
+		default:
+			c.LogPrec = float64(rapid.IntRange(1<<14, 60<<16).Draw(t, "logprec16")) / 65536
+		}
+	}
+	if rapid.IntRange(0, 5).Draw(t, "nil") == 0 {
+		c.NilAt = rapid.IntRange(1, 1<<c.Params.LogN).Draw(t, "nilAt")
+	}
+	c.LongIn = rapid.IntRange(0, 15).Draw(t, "longIn") == 0
+	return c
+}
+
+func genCKKS(t *rapid.T) CKKSCase {
+	c := genCKKSStep(t, nil)
+	if rapid.IntRange(0, 2).Draw(t, "then") != 0 {
+		d := genCKKSStep(t, &c)
+		c.Then = &d
 	}
 	return c
 }
@@ -425,13 +528,15 @@ func mkScale(k int, mant uint32) *big.Float {
 	return s.SetMantExp(s, k-32)
 }
 
-func setupCKKS(spec h.CKKSSpec, precReq uint, level, scaleLog int, mant uint32) (*ckksEnv, error) {
+func setupCKKS(spec h.CKKSSpec, precReq uint, level, scaleLog int, mant uint32, reuse ...*ckks.Encoder) (*ckksEnv, error) {
 	params, err := spec.Build()
 	if err != nil {
 		return nil, h.Failf("C07:ckks:params-rejected", "generated parameters rejected: %v", err)
 	}
 	e := &ckksEnv{params: params}
-	if precReq == 0 {
+	if len(reuse) > 0 && reuse[0] != nil {
+		e.ecd = reuse[0]
+	} else if precReq == 0 {
 		e.ecd = ckks.NewEncoder(params)
 	} else {
 		e.ecd = ckks.NewEncoder(params, precReq)
@@ -513,10 +618,31 @@ func precClass(e *ckksEnv) string {
 }
 
 func runCKKS(c CKKSCase, rec *h.Rec) error {
-	e, err := setupCKKS(c.Params, c.Prec, c.Level, c.ScaleLog, c.ScaleMant)
+	sh := &ckksShared{}
+	if err := stepCKKS(c, sh, rec, false); err != nil {
+		return err
+	}
+	if c.Then != nil {
+		t := *c.Then
+		t.Params, t.Prec, t.Level, t.Then, t.Dirty = c.Params, c.Prec, c.Level, nil, false
+		if err := stepCKKS(t, sh, rec, true); err != nil {
+			if f, ok := err.(*h.Failure); ok {
+				// the same step passes its own checks when it comes first (it is generated from the same distribution):
+				// name the history dependence in the key
+				return fail(rec, f.Key+":second-use", "second round trip on the same encoder and plaintext: %s", f.Msg)
+			}
+			return err
+		}
+	}
+	return nil
+}
+
+func stepCKKS(c CKKSCase, sh *ckksShared, rec *h.Rec, second bool) error {
+	e, err := setupCKKS(c.Params, c.Prec, c.Level, c.ScaleLog, c.ScaleMant, sh.ecd)
 	if err != nil {
 		return err
 	}
+	sh.ecd = e.ecd
 	params := e.params
 	maxLogSlots := params.LogMaxSlots()
 	logSlots := c.LogSlots
@@ -555,7 +681,11 @@ func runCKKS(c CKKSCase, rec *h.Rec) error {
 	E := e.magExp(c.Drop)
 	rng := h.NewSplitMix(c.Seed)
 
-	pt := ckks.NewPlaintext(params, e.level)
+	pt := sh.pt
+	if pt == nil {
+		pt = ckks.NewPlaintext(params, e.level)
+		sh.pt = pt
+	}
 	pt.LogDimensions.Cols = logSlots
 
 	if c.Dirty {
@@ -584,8 +714,33 @@ func runCKKS(c CKKSCase, rec *h.Rec) error {
 			mb = 128
 		}
 	}
+	if c.LongIn {
+		// near miss of the length condition: one element too many must be refused with an error, not a panic
+		long, _ := toInput(in, fillC("uniform", slots+1, E, e.bottom, mb, rng), inPrec)
+		err, pan := guard(func() error { return e.ecd.Encode(long, pt) })
+		rec.Classf("longIn:%s", b2s(c.Batched, "slots", "coeffs"))
+		if pan != "" {
+			return fail(rec, "C07:ckks:Encode:too-long-input:panic:"+b2s(c.Batched, "slots", "coeffs"), "Encode of %d values into %d slots panicked: %s", slots+1, slots, pan)
+		}
+		if err == nil {
+			return fail(rec, "C07:ckks:Encode:too-long-input:accepted:"+b2s(c.Batched, "slots", "coeffs"), "Encode of %d values into %d slots returned no error", slots+1, slots)
+		}
+	}
 	vals := fillC(c.Pat, inLen, E, e.bottom, mb, rng)
 	input, told := toInput(in, vals, inPrec)
+	nilIdx := -1
+	if c.NilAt > 0 && !typeF64(in) {
+		nilIdx = (c.NilAt - 1) % inLen
+		switch v := input.(type) {
+		case []*big.Float:
+			v[nilIdx] = nil
+		case []*bignum.Complex:
+			v[nilIdx] = nil
+		}
+		told[nilIdx] = zeroC() // the encoders read a nil entry as zero
+		rec.Classf("nil-entry:%s", b2s(nilIdx == 0, "first", "other"))
+	}
+	inSnap := snapAny(input)
 
 	// expected message: what the encoder was told, imaginary parts dropped in the conjugate-invariant ring and in the
 	// coefficient domain, zero in the unspecified slots
@@ -625,6 +780,12 @@ func runCKKS(c CKKSCase, rec *h.Rec) error {
 		in, out, c.OutNil, params.N(), slots, inLen, outLen, e.level, params.MaxLevel(), e.Ql.BitLen(), log2f(e.scale), e.prec, E, c.Pat, c.Dirty)
 
 	err, pan := guard(func() error { return e.ecd.Encode(input, pt) })
+	if pan != "" && nilIdx == 0 && !c.Batched {
+		return fail(rec, "C07:ckks:Encode:coeffs:bigf:nil-first-entry:panic", "Encode panicked: %s (values[0] == nil; nil entries at other positions are read as zero) (%s)", pan, desc)
+	}
+	if pan == "" && err == nil && snapAny(input) != inSnap {
+		return fail(rec, "C07:ckks:Encode:modifies-input:"+in, "Encode modified its input slice (%s)", desc)
+	}
 	if pan != "" {
 		if c.Batched && !c.NTT && pack == "sparse" {
 			return fail(rec, "C07:ckks:Encode:slots:sparse:IsNTT=false", "Encode panicked: %s (%s)", pan, desc)
@@ -681,9 +842,13 @@ func runCKKS(c CKKSCase, rec *h.Rec) error {
 	// decode runs Decode into a fresh output and compares; it returns ("", "") when the round trip holds, else a key and a message.
 	decode := func() (string, string) {
 		got := newOutput(out, outLen, c.OutNil)
+		ptSnap := snapPlaintext(pt)
 		err, pan := guard(func() error { return e.ecd.Decode(pt, got) })
 		if pan != "" {
 			return "C07:ckks:Decode:panic:" + keyTail, fmt.Sprintf("Decode panicked: %s (%s)", pan, desc)
+		}
+		if snapPlaintext(pt) != ptSnap {
+			return "C07:ckks:Decode:modifies-plaintext", fmt.Sprintf("Decode modified the plaintext (%s)", desc)
 		}
 		if err != nil {
 			return "C07:ckks:Decode:error:" + keyTail, fmt.Sprintf("Decode returned %v (%s)", err, desc)
@@ -775,9 +940,12 @@ func runCKKS(c CKKSCase, rec *h.Rec) error {
 
 	// DecodePublic -----------------------------------------------------------------------------------------------
 	if c.LogPrec != 0 {
-		lp := math.Round(c.LogPrec*2) / 2
-		if lp < 1 {
-			lp = 1
+		lp := math.Round(c.LogPrec*65536) / 65536 // multiples of 2^-16: 2^lp is computed exactly enough by square roots
+		if lp < 0.25 {
+			lp = 0.25
+		}
+		if lp > 60 {
+			lp = 60
 		}
 		if c.Batched && ci && e.arb {
 			// known finding stale-imaginary-buffer: in this class the result of a Decode depends on what the encoder buffer held;
@@ -798,7 +966,11 @@ func runCKKS(c CKKSCase, rec *h.Rec) error {
 			}
 		}
 		pub := newOutput(out, outLen, c.OutNil)
+		ptSnap := snapPlaintext(pt)
 		err, pan = guard(func() error { return e.ecd.DecodePublic(pt, pub, lp) })
+		if pan == "" && snapPlaintext(pt) != ptSnap {
+			return fail(rec, "C07:ckks:DecodePublic:modifies-plaintext", "DecodePublic modified the plaintext (%s)", desc)
+		}
 		if pan != "" {
 			return fail(rec, "C07:ckks:DecodePublic:panic:"+keyTail, "DecodePublic(logprec=%v) panicked: %s (%s)", lp, pan, desc)
 		}
@@ -809,10 +981,7 @@ func runCKKS(c CKKSCase, rec *h.Rec) error {
 		if bad != "" {
 			return fail(rec, "C07:ckks:DecodePublic:bad-output:"+keyTail, "%s (%s)", bad, desc)
 		}
-		unit := pow2(int(math.Floor(lp))) // 2^lp
-		if lp != math.Floor(lp) {
-			unit.Mul(unit, bf().Sqrt(bfF(2)))
-		}
+		unit := pow2frac(lp) // 2^lp
 		P := 53
 		if e.arb && !typeF64(out) {
 			P = int(e.prec)
@@ -820,7 +989,7 @@ func runCKKS(c CKKSCase, rec *h.Rec) error {
 				P = 64 // coefficient domain: Decode allocates nil *big.Float entries with 64 bits
 			}
 		}
-		rec.Classf("public=%s", b2s(lp == math.Floor(lp), "int", "half"))
+		rec.Classf("public=%s:%s:%s", b2s(lp == math.Floor(lp), "int", b2s(2*lp == math.Floor(2*lp), "half", "real")), b2s(e.arb, "arbitrary", "float64"), out)
 		for i := 0; i < outLen; i++ {
 			for part := 0; part < 2; part++ {
 				if part == 1 && !hasIm {
